@@ -30,6 +30,8 @@ import (
 	authsigning "github.com/cosmos/cosmos-sdk/x/auth/signing"
 	authtypes "github.com/cosmos/cosmos-sdk/x/auth/types"
 	banktypes "github.com/cosmos/cosmos-sdk/x/bank/types"
+	govtypes "github.com/cosmos/cosmos-sdk/x/gov/types"
+	govv1 "github.com/cosmos/cosmos-sdk/x/gov/types/v1"
 	minttypes "github.com/cosmos/cosmos-sdk/x/mint/types"
 
 	"github.com/medibloc/panacea-core/v2/app"
@@ -71,6 +73,7 @@ type GenesisOpts struct {
 	InitialTime int64             `json:"-"`
 	DiskDB      bool              `json:"diskdb"` // goleveldb under the run's scratch home instead of MemDB
 	NoFastNode  bool              `json:"nofast"` // the operator's --iavl-disable-fastnode
+	Gov         bool              `json:"gov"`       // short governance voting period, 1umed deposit, and a funded (untracked) proposer account
 	LegacyDid   bool              `json:"legacydid"` // genesis holds a registry entry under key dc whose document describes d1 (pre-binding chains)
 }
 
@@ -255,9 +258,22 @@ func (c *Chain) buildGenesis() (json.RawMessage, error) {
 			sdk.NewCoin(denom2, c.Unit2.MulRaw(1000)),
 		)})
 	}
+	if c.Opts.Gov {
+		f := newAcct("govfunder")
+		genAccs = append(genAccs, authtypes.NewBaseAccount(f.Addr, f.Priv.PubKey(), uint64(len(c.AcctList)+1), 0))
+		balances = append(balances, banktypes.Balance{Address: f.Bech, Coins: sdk.NewCoins(sdk.NewInt64Coin("umed", 10*initBalance))})
+	}
 	gs, err := simtestutil.GenesisStateWithValSet(cdc, gs, valSet, genAccs, balances...)
 	if err != nil {
 		return nil, err
+	}
+	if c.Opts.Gov {
+		var gg govv1.GenesisState
+		cdc.MustUnmarshalJSON(gs[govtypes.ModuleName], &gg)
+		vp := time.Duration(govDelay * stepNanos)
+		gg.Params.VotingPeriod = &vp
+		gg.Params.MinDeposit = sdk.NewCoins(sdk.NewInt64Coin("umed", 1))
+		gs[govtypes.ModuleName] = cdc.MustMarshalJSON(&gg)
 	}
 	// mint: either off (exact accounting) or visibly on (every block mints a few hundred umed)
 	var mintGen minttypes.GenesisState
